@@ -76,6 +76,12 @@ def classical_ops(ty, n, idx):
         ops.append(("unpack", [f"{names}{',' if n == 1 else ''} = xs.copy()"] + [f'result("u", {rd(ty, f"u{k}")})' for k in range(n)]))
         ops.append(("starred-unpack", ["h0, *rest = xs.copy()", f'result("h", {rd(ty, "h0")})', "for e in rest:",
                                        f'    result("t", {rd(ty, "e")})']))
+    if ty == "int":
+        ops.append(("starred-unpack-range", ["rh, *rt = range(3)", 'result("rh", rh)', "for e in rt:", '    result("rt", e)']))
+        ops.append(("unpack-range", ["r0, r1, r2 = range(3)", 'result("rr", r0 * 100 + r1 * 10 + r2)']))
+        ops.append(("tuple-starred-to-array", ["t0, *tm, t1 = (1, 2, 3, 4)", 'result("t", t0 * 10 + t1)', "for e in tm:", '    result("tm", e)']))
+        ops.append(("tuple-starred-last-to-array", ["t0, *tm = (1, 2, 3)", "for e in tm:", '    result("tm", e)']))
+        ops.append(("tuple-starred-first-to-array", ["*tm, t1 = (1, 2, 3)", "for e in tm:", '    result("tm", e)']))
     # every split of the targets around the star: k names before, m names after
     for k, m in ((0, 1), (0, 2), (1, 1), (1, 2), (2, 1), (0, 3), (2, 0)):
         if n >= k + m and (k, m) != (1, 0):
